@@ -164,6 +164,7 @@ impl Prop for Contradictions {
             };
             next = slot + 1;
             funcs.push(Func {
+                sty: 0,
                 vis: true,
                 name: format!("vf{k}"),
                 doc: vec![],
@@ -241,6 +242,6 @@ pub fn props() -> Vec<Box<dyn DynProp>> {
 pub fn run(ctx: &mut Ctx) {
     let q = ctx.quick();
     ctx.run(&Contradictions, &Params::new(if q { 20_000 } else { 400_000 }, 10, 60));
-    ctx.run(&TableLayout, &Params::new(if q { 600 } else { 20_000 }, 100, 2000).shrink(100));
-    ctx.run(&Dispatch, &Params::new(if q { 300 } else { 8000 }, 200, 3000).shrink(60));
+    ctx.run(&TableLayout, &Params::new(if q { 3000 } else { 80_000 }, 100, 2000).shrink(100));
+    ctx.run(&Dispatch, &Params::new(if q { 1200 } else { 40_000 }, 200, 3000).shrink(60));
 }
